@@ -71,11 +71,16 @@ pub mod openmls_types {
     // about the OpenMLS objects, uninterpreted)
     pub uninterp spec fn staged_commit_sender(c: StagedCommit) -> Sender;
     pub uninterp spec fn app_message_credential(a: ApplicationMessage) -> Credential;
+    // the epoch an application message was sent in (the epoch its keys, and the exporter secret its media
+    // is encrypted under, belong to) -- may be older than the receiver's current epoch (late delivery)
+    pub uninterp spec fn app_message_epoch(a: ApplicationMessage) -> u64;
     impl Clone for Sender { #[verifier::external_body] fn clone(&self) -> (r: Self) ensures r == *self { unimplemented!() } }
     impl ProcessedMessage {
         pub uninterp spec fn snd(&self) -> Sender;
         pub uninterp spec fn cred(&self) -> Credential;
         pub uninterp spec fn content(&self) -> ProcessedMessageContent;
+        pub uninterp spec fn ep(&self) -> u64;
+        #[verifier::external_body] pub fn epoch(&self) -> (r: GroupEpoch) ensures r.e == self.ep() { unimplemented!() }
         #[verifier::external_body] pub fn sender(&self) -> (r: &Sender) ensures *r == self.snd() { unimplemented!() }
         #[verifier::external_body] pub fn credential(&self) -> (r: &Credential) ensures *r == self.cred() { unimplemented!() }
         // assumed OpenMLS fact: sender()/credential() of a processed message are those of its content
@@ -83,15 +88,17 @@ pub mod openmls_types {
             ensures r == self.content(),
                     r is StagedCommitMessage ==> staged_commit_sender(*r->StagedCommitMessage_0) == self.snd(),
                     r is ApplicationMessage ==> app_message_credential(r->ApplicationMessage_0) == self.cred(),
+                    r is ApplicationMessage ==> app_message_epoch(r->ApplicationMessage_0) == self.ep(),
         { unimplemented!() }
     }
 }
-pub use openmls_types::{ProcessedMessageContent, staged_commit_sender, app_message_credential};
+pub use openmls_types::{ProcessedMessageContent, staged_commit_sender, app_message_credential, app_message_epoch};
 impl MlsGroup {
     // decrypts / verifies one protocol message; the abstract view is unchanged (ratchet state not modelled)
     #[verifier::external_body]
     pub fn process_message<S: MdkStorageProvider>(&mut self, provider: &MdkProvider<S>, m: ProtocolMessage) -> (r: Result<openmls_types::ProcessedMessage, ProcessMessageError>)
         ensures final(self).view() == old(self).view(),
+                r is Ok ==> r->Ok_0.ep() == m.ep(),   // assumed OpenMLS fact: a processed message carries the epoch of its protocol message
     { unimplemented!() }
     #[verifier::external_body]
     pub fn pending_commit(&self) -> (r: Option<&StagedCommit>) ensures (r is Some) == self.view().has_pending_commit { unimplemented!() }
